@@ -610,7 +610,9 @@ func c16Nested(c *ctx, r *rng) error {
 			}
 			return o
 		}
+		crumb("Template.Execute (nested executions on one manager)", J{"outer": outerName, "inner": innerName, "depth": depth, "files": files})
 		exec(0)
+		crumbAt.Store(0)
 		res.S3Checked++
 		res.count(fmt.Sprintf("nested_depth_%d", depth))
 		res.count("nested_outer_" + orOK(aloneErr[0]))
